@@ -39,7 +39,14 @@ var c28gFormats = map[string][]string{ // key format -> algorithm names, in the 
 	"ed25519": {"ssh-ed25519"},
 	"ecdsa":   {"ecdsa-sha2-nistp256"},
 	"rsa":     {"rsa-sha2-256", "rsa-sha2-512", "ssh-rsa"},
+	// host certificates (PROTOCOL.certkeys) over the same three keys
+	"ed25519-cert": {"ssh-ed25519-cert-v01@openssh.com"},
+	"ecdsa-cert":   {"ecdsa-sha2-nistp256-cert-v01@openssh.com"},
+	"rsa-cert":     {"rsa-sha2-256-cert-v01@openssh.com", "rsa-sha2-512-cert-v01@openssh.com", "ssh-rsa-cert-v01@openssh.com"},
 }
+
+var c28gPlainFormats = []string{"ed25519", "ecdsa", "rsa"}
+var c28gCertFormats = []string{"ed25519-cert", "ecdsa-cert", "rsa-cert"}
 
 func c28gMakeKeys() (*c28gKeys, error) {
 	k := &c28gKeys{goSigner: map[string]ssh.Signer{}, rpKey: map[string]refpeer.HostKey{}}
@@ -63,6 +70,25 @@ func c28gMakeKeys() (*c28gKeys, error) {
 	k.rpKey["ed25519"] = refpeer.Ed25519HostKey{Priv: ed}
 	k.rpKey["ecdsa"] = refpeer.ECDSAHostKey{Priv: ec, Rand: rand.Reader}
 	k.rpKey["rsa"] = refpeer.RSAHostKey{Priv: rs}
+	// host certificates for the same keys, issued by an ed25519 CA
+	_, caPriv, err := ed25519.GenerateKey(rand.Reader)
+	if err != nil {
+		return nil, err
+	}
+	caSigner, err := ssh.NewSignerFromKey(caPriv)
+	if err != nil {
+		return nil, err
+	}
+	for _, f := range c28gPlainFormats {
+		cert := &ssh.Certificate{Key: k.goSigner[f].PublicKey(), CertType: ssh.HostCert, KeyId: "host-" + f, ValidPrincipals: []string{"mem"}, ValidBefore: ssh.CertTimeInfinity}
+		if err := cert.SignCert(rand.Reader, caSigner); err != nil {
+			return nil, err
+		}
+		if k.goSigner[f+"-cert"], err = ssh.NewCertSigner(cert, k.goSigner[f]); err != nil {
+			return nil, err
+		}
+		k.rpKey[f+"-cert"] = &refpeer.CertHostKey{Key: k.rpKey[f], CA: refpeer.Ed25519HostKey{Priv: caPriv}, KeyID: "host-" + f, Principals: []string{"mem"}}
+	}
 	return k, nil
 }
 
@@ -78,6 +104,7 @@ type c28gCase struct {
 	shk        []string // server's host key algorithm list (derived from skeys)
 	kexClass   string
 	hkClass    string
+	keySet     string // which kinds of host keys the server owns
 	// lists of the package's side that stay fixed for the whole connection
 	goCiphers, goMACs []string
 	// key re-exchanges after the first one: the independent peer sends a new
@@ -202,6 +229,7 @@ func c28gWithout(l []string, drop ...string) []string {
 func c28gBuild(i int, d *drbg) *c28gCase {
 	cs := &c28gCase{goIsServer: i%2 == 0}
 	nRekeySel := i / 2
+	keySetSel := i / 2
 	i /= 2
 	cs.guess = i%4 != 3
 	i /= 4
@@ -246,23 +274,46 @@ func c28gBuild(i int, d *drbg) *c28gCase {
 		cs.skex, cs.ckex = guesserKex, otherKex
 	}
 
-	// host keys
-	formats := c28gShuffle(d, []string{"ed25519", "ecdsa", "rsa"})
+	// host keys: the server's key set (plain keys, host certificates, both
+	// kinds of one family in either order, a mix), then the client's preference
+	var own []string // the server's key formats in AddHostKey order
+	fam := c28gPlainFormats[int(d.bytes(1)[0])%3]
+	switch keySetSel % 5 {
+	case 0:
+		cs.keySet = "plain-only"
+		own = c28gShuffle(d, c28gPlainFormats)[:1+int(d.bytes(1)[0])%3]
+	case 1:
+		cs.keySet = "cert-only"
+		own = c28gShuffle(d, c28gCertFormats)[:1+int(d.bytes(1)[0])%3]
+	case 2:
+		cs.keySet = "plain-then-cert-of-one-family"
+		own = []string{fam, fam + "-cert"}
+	case 3:
+		cs.keySet = "cert-then-plain-of-one-family"
+		own = []string{fam + "-cert", fam}
+	default:
+		cs.keySet = "mixed"
+		own = c28gShuffle(d, append(append([]string{}, c28gPlainFormats...), c28gCertFormats...))[:2+int(d.bytes(1)[0])%3]
+	}
+	all := append(append([]string{}, c28gPlainFormats...), c28gCertFormats...)
+	if len(c28gNames(own)) < 2 && strings.Contains(cs.hkClass, "later-on-server") {
+		// "later on the server's list" needs a second name
+		own = append(own, c28gWithout(c28gShuffle(d, all), own...)[0])
+	}
+	cs.skeys = own
+	cs.shk = c28gNames(own)
+	notOwned := c28gNames(c28gWithout(all, own...))
 	switch cs.hkClass {
 	case "hostkey-first-same":
-		cs.skeys = formats[:1+int(d.bytes(1)[0])%3]
-		cs.shk = c28gNames(cs.skeys)
-		cs.chk = append([]string{cs.shk[0]}, c28gShuffle(d, c28gWithout(c28gNames(formats), cs.shk[0]))[:2]...)
+		cs.chk = append([]string{cs.shk[0]}, c28gShuffle(d, c28gWithout(append(append([]string{}, cs.shk...), notOwned...), cs.shk[0]))...)
+		if len(cs.chk) > 4 {
+			cs.chk = cs.chk[:4]
+		}
 	case "hostkey-first-differs,client-first-later-on-server":
-		cs.skeys = formats[:2+int(d.bytes(1)[0])%2]
-		cs.shk = c28gNames(cs.skeys)
 		later := cs.shk[1+int(d.bytes(1)[0])%(len(cs.shk)-1)]
 		cs.chk = append([]string{later}, c28gShuffle(d, c28gWithout(cs.shk, later))...)
 	default:
-		cs.skeys = formats[:2]
-		cs.shk = c28gNames(cs.skeys)
-		missing := c28gFormats[formats[2]][0]
-		cs.chk = append([]string{missing}, c28gShuffle(d, cs.shk)...)
+		cs.chk = append([]string{c28gShuffle(d, notOwned)[0]}, c28gShuffle(d, cs.shk)...)
 	}
 	cs.goCiphers = c28gShuffle(d, c28gCipherPool)
 	cs.goMACs = c28gShuffle(d, c28gMACPool)
@@ -718,10 +769,21 @@ func c28gModel(cs *c28gCase, out *c28gOutcome, k int) (want rw.Agreed, peerFlag,
 
 // c28gKeyTypeOf maps a host key algorithm to the type string of its key blob.
 func c28gKeyTypeOf(algo string) string {
-	if strings.HasPrefix(algo, "rsa-sha2-") {
-		return "ssh-rsa"
+	const certSuffix = "-cert-v01@openssh.com"
+	plain := strings.TrimSuffix(algo, certSuffix)
+	if strings.HasPrefix(plain, "rsa-sha2-") {
+		plain = "ssh-rsa"
 	}
-	return algo
+	if strings.HasSuffix(algo, certSuffix) {
+		return plain + certSuffix
+	}
+	return plain
+}
+
+// c28gSigFormatOf is the signature format of a host key algorithm: host
+// certificates are signed with the underlying plain algorithm.
+func c28gSigFormatOf(algo string) string {
+	return strings.TrimSuffix(algo, "-cert-v01@openssh.com")
 }
 
 func c28GuessPart(c *ev.Collector, t *testing.T) {
@@ -807,8 +869,8 @@ func c28GuessPart(c *ev.Collector, t *testing.T) {
 					c.Inconclusive(fmt.Sprintf("refpeer negotiated %+v, harness model %+v", got, want))
 					t.Fatalf("VF-INCONCLUSIVE: refpeer/model disagreement")
 				}
-				if ex.keyType != c28gKeyTypeOf(want.HostKey) || ex.sigFormat != want.HostKey {
-					fail(fmt.Sprintf("host key blob of type %q with a %q signature was used; %s", ex.keyType, ex.sigFormat, expect))
+				if ex.keyType != c28gKeyTypeOf(want.HostKey) || ex.sigFormat != c28gSigFormatOf(want.HostKey) {
+					fail(fmt.Sprintf("the server presented a host key blob of type %q with a %q signature (server key set: %s %v); the negotiated algorithm %q calls for a %q blob; %s", ex.keyType, ex.sigFormat, cs.keySet, cs.skeys, want.HostKey, c28gKeyTypeOf(want.HostKey), expect))
 				}
 				if !cs.goIsServer && k < len(out.goHostKeyTypes) && out.goHostKeyTypes[k] != c28gKeyTypeOf(want.HostKey) {
 					fail(fmt.Sprintf("HostKeyCallback was handed a %q key; %s", out.goHostKeyTypes[k], expect))
@@ -850,6 +912,18 @@ func c28GuessPart(c *ev.Collector, t *testing.T) {
 						g += ":hostkey-differs"
 					}
 				}
+			}
+			kind := "plain"
+			if strings.HasSuffix(want.HostKey, "-cert-v01@openssh.com") {
+				kind = "cert"
+			}
+			exName := "first-exchange"
+			if k > 0 {
+				exName = "re-exchange"
+			}
+			c.Class(fmt.Sprintf("e2e-hostkey:%s,keyset=%s,negotiated=%s,%s", role, cs.keySet, kind, exName))
+			if (cs.keySet == "plain-then-cert-of-one-family" && kind == "cert") || (cs.keySet == "cert-then-plain-of-one-family" && kind == "plain") {
+				c.Class("e2e-hostkey:negotiated-kind-is-not-the-first-added-key-of-the-family," + role + "," + exName)
 			}
 			if k == 0 {
 				pref := "preferred-kex=" + cs.ckex[0]
